@@ -23,12 +23,16 @@ type CaseResult struct {
 var Relevant = map[string]func(w *World) int64{
 	"C01": func(w *World) int64 { return w.Stats["must_deliveries_checked"] },
 	"C02": func(w *World) int64 { return w.Stats["deliveries_observed"] },
-	"C03": func(w *World) int64 { return w.Stats["acks_effective"] + w.Stats["ack_stale_ids"] + w.Stats["modack_stale_ids"] },
+	"C03": func(w *World) int64 {
+		return w.Stats["acks_effective"] + w.Stats["ack_stale_ids"] + w.Stats["modack_stale_ids"]
+	},
 	"C04": func(w *World) int64 { return w.Stats["redeliveries"] },
 	"C05": func(w *World) int64 { return w.Stats["ordered_successor_after_settled_predecessor"] },
 	"C06": func(w *World) int64 { return w.Stats["forwards_expected"] },
 	"C13": func(w *World) int64 { return w.Stats["seek_revived"] + w.Stats["seek_acked"] },
-	"C14": func(w *World) int64 { return w.Stats["subs_expired"] + w.Stats["expired_not_offered"] + w.Stats["delay_respected"] },
+	"C14": func(w *World) int64 {
+		return w.Stats["subs_expired"] + w.Stats["expired_not_offered"] + w.Stats["delay_respected"]
+	},
 	"C15": func(w *World) int64 { return w.Stats["job_rows_deleted"] },
 }
 
